@@ -18,7 +18,7 @@ def run(tier, seed):
     specs = leaf.array_specs(tier) + [("contracts.arrays", "make_arr", (w,)) for w in ("length-resolution", "write-size-check", "c-order", "sentinel")]
     specs += [("contracts.cstructfns", "make_fn", ("make_array",))]
     rep.add_case_results(run_cases(specs), "T1")
-    progs = programs_for(tier, seed, pred=has_arr, full=True)
+    progs = sets.focused_programs(sorted(sets.ARRAY_KINDS), seed, tier=tier)
     rep.add_case_results(run_cases([("t2.cases", "make_rel", (p.to_json(),)) for p in progs]), "T2")
     rep.add_case_results(run_cases([("t2.cases", "make_arrsem", (p.to_json(),)) for p in progs if len(p.kinds) == 1]), "T2")
     run_pipeline(rep, progs, ["C01"])
